@@ -73,7 +73,7 @@ if res.get("applied_in_scratch") and res.get("builds"):
             sigs = re.findall(r"signature=(.*)", out)
             results[cid] = {"exit": rc, "violations": len(re.findall(r"^VIOLATION", out, re.M)), "signatures": sigs[:6]}
     finally:
-        sh("git checkout -- . && git clean -fdq", cwd="/repo")
+        sh("git reset -q && git checkout -- . && git clean -fdq", cwd="/repo")
 res["checks"] = results
 assert sh("git status --porcelain", cwd="/repo")[1].strip() == "", "/repo not clean after eval"
 print(json.dumps(res, indent=1))
